@@ -5,7 +5,7 @@ import vplib
 PID = "C05"
 ENGINE = "conc"
 RULE = ("an emitter thread (1-2) pushing 2-4 items (and possibly a terminal) into a subject / a raw observer while another thread calls "
-        "Subscription::unsubscribe (or Observer::unsubscribe), through 0-2 operators, under random / PCT schedules and DFS for the smallest; "
+        "Subscription::unsubscribe (or drops a utils::Using guard owning the subscription, or calls Observer::unsubscribe), through 0-2 operators, under random / PCT schedules and DFS for the smallest; "
         "no callback may START for a call that began after the unsubscribe call returned, is_subscribed must read false after it; "
         "non-trivial = at least one emission call began after the unsubscribe returned, or overlapped it; distinct = projected observation")
 ASSUMPTIONS = ["scheduling points are the facade's lock/condvar/spawn/sleep operations", "user callbacks return"]
@@ -23,7 +23,8 @@ def generate(rng, tier, seed):
         items = [["next", 0, i + 1] for i in range(rng.randrange(2, 5))]
         if rng.random() < 0.4:
             items.append(rng.choice([["complete", 0], ["error", 0, 5]]))
-        threads = [["em"] + items, ["un", ["unsub", 0], ["issub", 0]]]
+        # the subscription is ended by Subscription::unsubscribe or by dropping a utils::Using guard that owns it
+        threads = [["em"] + items, ["un", rng.choice([["unsub", 0], ["unsub", 0], ["using", 0]]), ["issub", 0]]]
         if rng.random() < 0.3:
             threads.append(["em2", ["next", 0, 8], ["next", 0, 9]])
         base = seed * 1000 + rng.randrange(1000)
@@ -65,7 +66,7 @@ def judge(cases, runs):
                 continue
             unsub_ret = None
             for pos, r in enumerate(ob["ev"]):
-                if r[3] == "ret" and r[4][0] in ("unsub", "ounsub") and unsub_ret is None:
+                if r[3] == "ret" and r[4][0] in ("unsub", "ounsub", "using") and unsub_ret is None:
                     unsub_ret = pos
             cbs = vplib.callbacks_of(ob, tag)
             if unsub_ret is not None:
